@@ -86,7 +86,7 @@ def start_vector_lattice(ck, tier, rng):
                                                  fam, i, static, incomp, l, frac, x), dict(body={k: str(v) for k, v in b.items()}, l=l, r0_over_R=frac, family=fam, static=static, incompressible=incomp))
         # liquid innermost layers: Saito's static vector (any family), Kamata / Takeuchi dynamic vectors
         for static, incomp, kam in ((True, False, True), (True, True, False), (False, False, True), (False, True, True), (False, False, False)):
-            for l in ((2, 3) if tier == "quick" else (2, 3, 4, 6, 10)):
+            for l in ((2, 3, 4, 7) if tier == "quick" else (2, 3, 4, 5, 6, 7, 10)):
                 for frac in (1e-3, 0.03, 0.25):
                     fq = b["freq"] if (static or "G" in b) else max(b["freq"], 3e-4)
                     res = so_.ode_residual_liquid(static, incomp, kam, fq, frac * b["R"], b["rho"], b["K"], l, b.get("G", G))
